@@ -109,10 +109,34 @@ CHECKS = {
         "trusts the harness-built model (scenes.build with state override) and the harness's own unwrapped revolute angles; velocity-level solvers restart with compute_consistent_initial_conditions=False",
         "deterministic simulation: crash/restart fault injection at enumerated split steps with durable-state seam (memory / file), differential oracle against the uninterrupted run and an independently built model, ddmin-shrunk replay files",
     ),
+    "C19": (
+        "rattle_sym",
+        "exploration",
+        "DESIGN.md 5.6",
+        "seeded conservative scenes run with RATTLE at Newton tolerance 1e-11: forward / reverse-velocities / back histories (reversed system built by the harness at the reached state, or deepcopy + set_new_initial_state; optional crash/restart inside the forward leg) must return to the start; dt vs dt/2 energy-error ratio; long-horizon runs for secular energy drift (linear trend vs oscillation amplitude). Sampled, not exhaustive; the 'schedule' is the scene / step-size / history draw.",
+        "kinetic energy 0.5 u^T M u and System.E_pot as energy; reversibility tolerance 1e-7*(1+scale); order ratio only where the coarse error exceeds 1e-8*(1+|E|); drift clause only on single-body pendulum-like scenes (many periods inside the horizon)",
+        "deterministic simulation: seeded advance / reverse / restart histories checked against time-reversal symmetry and Richardson / drift statistics of the recorded energy history, ddmin-shrunk replay files",
+    ),
+    "C23": (
+        "statics",
+        "exploration",
+        "DESIGN.md 5.9",
+        "seeded static problems (clamped cantilevers for every rod formulation, rigid body on springs, sphere pressed onto a plane, Riks on truss and cantilever); every returned load step / arc-length point is checked with harness-recomputed residuals against the solver's own scaled criterion; forced Newton failure at a seeded load step; frame indifference by solving the rigidly moved problem. Sampled, not exhaustive.",
+        "trusts the System's model functions for the residual; bound 50 x the reconstructed solver criterion; frame-indifference tolerance 1e-7*(1+scale)",
+        "deterministic simulation: seeded load-step runs under the load-step seam with per-point equilibrium monitors, convergence-fault injection and a moved-twin differential oracle, ddmin-shrunk replay files",
+    ),
+    "C29": (
+        "export",
+        "exploration",
+        "DESIGN.md 5.13",
+        "seeded sessions (multibody runs and static rod solutions) followed by export operations with random fps, overwrite flag, pre-existing folders, repeated exports, lists and System.export; the written .pvd / .vtu files are read back with VTK's reader and compared with geometry recomputed by the harness from the solution at each exported frame's time. Sampled, not exhaustive.",
+        "trusts VTK's reader and the harness's geometry formulas; rods are re-evaluated through their public r_OP / A_IB; points are Float32 (1e-6), data arrays 1e-9",
+        "deterministic simulation: file-seam export / read-back with environment-state faults (pre-existing folders and files) against independently recomputed geometry, ddmin-shrunk replay files",
+    ),
 }
 
 _P = "claimed in DESIGN.md; its check is still under construction in this round and is therefore not registered yet"
-PENDING = {p: _P for p in ["C19", "C23", "C29"]}
+PENDING = {}
 
 ENGINE_KIND = {
     "assembly": "operation-history machine (System registry / scatter) vs reference model",
@@ -125,6 +149,9 @@ ENGINE_KIND = {
     "solution": "session engine: Solution contract on every returned solution, truncation faults",
     "nonconv": "convergence-fault injector over pilot-enumerated injection points",
     "restart": "crash/restart injector over enumerated split steps",
+    "rattle_sym": "history engine: advance / reverse / restart, order and drift statistics",
+    "statics": "load-step engine: per-point equilibrium monitors, moved-twin oracle",
+    "export": "file-seam engine: export / read-back",
 }
 
 
